@@ -634,7 +634,11 @@ impl Writer {
             .readers
             .iter()
             .filter_map(|(guid, rp)| {
-              if rp.qos().is_reliable() && rp.all_acked_before <= wait_until {
+              // If nothing has been written yet, there is nothing to acknowledge.
+              if rp.qos().is_reliable()
+                && wait_until >= SequenceNumber::new(1)
+                && rp.all_acked_before <= wait_until
+              {
                 Some(*guid)
               } else {
                 None
